@@ -166,15 +166,19 @@ theorem sortDesc_scale (q : K) (hq : 0 < q) (xs : List K) :
   | nil => rfl
   | cons a t ih => simp only [List.map_cons, sortDesc, ih, insertDesc_scale sqrt q hq]
 
+theorem all_isZero_scale (q : K) (hq : 0 < q) (c : List K) :
+    (c.map (q * ·)).all (fieldOps sqrt).isZero = c.all (fieldOps sqrt).isZero := by
+  induction c with
+  | nil => rfl
+  | cons a t ih => simp only [List.map_cons, List.all_cons, ih]; simp [hq.ne']
+
 theorem nonzeroCoils_scale (q : K) (hq : 0 < q) (chunk n : Nat) (xs : List K) :
     nonzeroCoils S chunk n (xs.map (q * ·)) = (nonzeroCoils S chunk n xs).map (q * ·) := by
   induction n generalizing xs with
   | zero => rfl
   | succ n ih =>
-    simp only [nonzeroCoils, ← List.map_take, ← List.map_drop, ih, sumList_scale, List.map_append]
-    have : (fieldOps sqrt).isZero (q * sumList S (List.take chunk xs)) = (fieldOps sqrt).isZero (sumList S (List.take chunk xs)) := by
-      simp [hq.ne']
-    rw [this]
+    simp only [nonzeroCoils, ← List.map_take, ← List.map_drop, ih, List.map_append,
+      all_isZero_scale sqrt q hq]
     split <;> simp
 
 theorem conjMul_scale (p q : K) : ∀ (s x : List K),
